@@ -145,3 +145,33 @@ def command_and_stop_in_the_same_tick():
         return {"violated": False, "scenarios": 2}
     finally:
         logging.disable(logging.NOTSET)
+
+
+def raising_finalizer_leaves_no_instance_behind():
+    """a UOD command whose finalize callback raises: after the failure (and after Stop) the uod must not hold its instance"""
+    import logging
+    from contracts.c15_native import _uod
+    from openpectus.test.engine.utility_methods import EngineTestRunner
+    logging.disable(logging.CRITICAL)
+    try:
+        runner = EngineTestRunner(_uod(final_raises=True, ticks=2), "Reset\nMark: A\n", fail_on_log_error=False)
+        with runner.run() as inst:
+            e = inst.engine
+            inst.start_run()
+            for _ in range(8):
+                try:
+                    inst.run_ticks(1, fail_on_log_error=False)
+                except Exception:
+                    pass
+            held_after_failure = list(e.uod.command_instances.keys())
+            e.schedule_execution("Stop")
+            for _ in range(5):
+                try:
+                    inst.run_ticks(1, fail_on_log_error=False)
+                except Exception:
+                    pass
+            held_after_stop = list(e.uod.command_instances.keys())
+            return {"violated": bool(held_after_failure or held_after_stop), "instances_held_after_the_failed_finalizer": held_after_failure,
+                    "instances_held_after_stop": held_after_stop, "scenario": "UOD command `Reset` completes, its finalize_fn raises; then Stop"}
+    finally:
+        logging.disable(logging.NOTSET)
